@@ -16,7 +16,7 @@ func objPlan(tier string, preds Pred) ObjPlan {
 	if tier == "thorough" {
 		return ObjPlan{T: 4, W: 12, WCap: 1 << 22, Rotations: 4, FullV2: true, Preds: preds}
 	}
-	return ObjPlan{T: 2, W: 8, WCap: 1 << 16, Rotations: 2, FullV2: false, Preds: preds}
+	return ObjPlan{T: 3, W: 10, WCap: 1 << 18, Rotations: 3, FullV2: false, Preds: preds}
 }
 
 func runAllObj(r *Report, plan ObjPlan, bfsDepth int) {
